@@ -12,7 +12,7 @@ IX = TObj("Index")
 def dict_frame_except(new, old, key):
     """every key other than `key` keeps presence and value."""
     k = z3.Const(fresh_name("k"), sort_of(old.ty.k))
-    return z3.ForAll([k], z3.Implies(k != S.T(key), z3.And(z3.Select(d_dom(new.t), k) == z3.Select(d_dom(old.t), k),
+    return forall([k], z3.Implies(k != S.T(key), z3.And(z3.Select(d_dom(new.t), k) == z3.Select(d_dom(old.t), k),
                                                          z3.Select(d_val(new.t), k) == z3.Select(d_val(old.t), k))),
                      patterns=[z3.Select(d_dom(new.t), k), z3.Select(d_val(new.t), k), z3.Select(d_dom(old.t), k), z3.Select(d_val(old.t), k)])
 
@@ -54,13 +54,13 @@ def tags_updated(T1, T0, tags, idx, done):
         z3.Select(d_dom(T1.t), k),
         z3.Select(d_dom(in1), v),
         is_append(z3.Select(d_val(in1), v), n0, at0, idx),
-        z3.ForAll([v2], z3.Implies(v2 != v, z3.And(
+        forall([v2], z3.Implies(v2 != v, z3.And(
             z3.Select(d_dom(in1), v2) == z3.And(z3.Select(d_dom(T0.t), k), z3.Select(d_dom(in0), v2)),
             z3.Implies(z3.Select(d_dom(in1), v2), z3.Select(d_val(in1), v2) == z3.Select(d_val(in0), v2)))),
             patterns=[z3.Select(d_dom(in1), v2), z3.Select(d_val(in1), v2)]),
     )
     same = z3.And(z3.Select(d_dom(T1.t), k) == z3.Select(d_dom(T0.t), k), in1 == in0)
-    return z3.ForAll([k], z3.If(done(k), upd, same), patterns=[z3.Select(d_dom(T1.t), k), z3.Select(d_val(T1.t), k)])
+    return forall([k], z3.If(done(k), upd, same), patterns=[z3.Select(d_dom(T1.t), k), z3.Select(d_val(T1.t), k)])
 
 
 @contract("tinyflux.index.Index._insert_tags")
@@ -87,7 +87,7 @@ def fields_updated(F1, F0, fields, idx, done):
     item = t_mk(FItem, idx, z3.Select(d_val(fields.t), k))
     upd = z3.And(z3.Select(d_dom(F1.t), k), is_append(z3.Select(d_val(F1.t), k), n0, at0, item))
     same = z3.And(z3.Select(d_dom(F1.t), k) == z3.Select(d_dom(F0.t), k), z3.Select(d_val(F1.t), k) == z3.Select(d_val(F0.t), k))
-    return z3.ForAll([k], z3.If(done(k), upd, same), patterns=[z3.Select(d_dom(F1.t), k), z3.Select(d_val(F1.t), k)])
+    return forall([k], z3.If(done(k), upd, same), patterns=[z3.Select(d_dom(F1.t), k), z3.Select(d_val(F1.t), k)])
 
 
 @contract("tinyflux.index.Index._insert_fields")
@@ -130,9 +130,9 @@ def all_empty(ix):
     k = z3.Const(fresh_name("k"), sort_of(TStr))
     return [
         ("num_items_zero", f["_num_items"].t == 0),
-        ("tags_empty", z3.ForAll([k], z3.Not(z3.Select(d_dom(f["_tags"].t), k)))),
-        ("fields_empty", z3.ForAll([k], z3.Not(z3.Select(d_dom(f["_fields"].t), k)))),
-        ("measurements_empty", z3.ForAll([k], z3.Not(z3.Select(d_dom(f["_measurements"].t), k)))),
+        ("tags_empty", forall([k], z3.Not(z3.Select(d_dom(f["_tags"].t), k)))),
+        ("fields_empty", forall([k], z3.Not(z3.Select(d_dom(f["_fields"].t), k)))),
+        ("measurements_empty", forall([k], z3.Not(z3.Select(d_dom(f["_measurements"].t), k)))),
         ("timestamps_empty", l_len(f["_timestamps"].t) == 0),
         ("storage_pos_empty", l_len(f["_storage_pos_sorted_by_ts"].t) == 0),
     ]
@@ -231,7 +231,7 @@ def is_concat(new, a, b):
     na = l_len(a.t)
     return z3.And(
         l_len(new.t) == na + l_len(b.t),
-        z3.ForAll([j], z3.Implies(z3.And(0 <= j, j < l_len(new.t)),
+        forall([j], z3.Implies(z3.And(0 <= j, j < l_len(new.t)),
                                   l_at(new.t, j) == z3.If(j < na, l_at(a.t, j), l_at(b.t, j - na))), patterns=[l_at(new.t, j)]))
 
 
@@ -257,9 +257,9 @@ class _insert(Contract):
         TSl = f["_timestamps"].t
         j, k = z3.Int(fresh_name("j")), z3.Int(fresh_name("k"))
         return repr_self(c.self) + [
-            ("points_time_ordered", z3.ForAll([j, k], z3.Implies(z3.And(0 <= j, j <= k, k < l_len(pts.t)), ts(l_at(pts.t, j)) <= ts(l_at(pts.t, k))),
+            ("points_time_ordered", forall([j, k], z3.Implies(z3.And(0 <= j, j <= k, k < l_len(pts.t)), ts(l_at(pts.t, j)) <= ts(l_at(pts.t, k))),
                                               patterns=[z3.MultiPattern(l_at(pts.t, j), l_at(pts.t, k))])),
-            ("not_before_latest", z3.ForAll([j], z3.Implies(z3.And(n > 0, 0 <= j, j < l_len(pts.t)), l_at(TSl, n - 1) <= ts(l_at(pts.t, j))),
+            ("not_before_latest", forall([j], z3.Implies(z3.And(n > 0, 0 <= j, j < l_len(pts.t)), l_at(TSl, n - 1) <= ts(l_at(pts.t, j))),
                                             patterns=[l_at(pts.t, j)])),
         ]
 
@@ -282,7 +282,7 @@ class _insert(Contract):
         t = c.loop(0).t
         TSl, pts = c.self.t["_timestamps"].t, c.points.t
         j, k = z3.Int(fresh_name("j")), z3.Int(fresh_name("k"))
-        ub = z3.ForAll([j, k], z3.Implies(z3.And(0 <= j, j < l_len(S0.t) + t, t <= k, k < l_len(pts)), l_at(TSl, j) <= ts(l_at(pts, k))),
+        ub = forall([j, k], z3.Implies(z3.And(0 <= j, j < l_len(S0.t) + t, t <= k, k < l_len(pts)), l_at(TSl, j) <= ts(l_at(pts, k))),
                        patterns=[z3.MultiPattern(l_at(TSl, j), l_at(pts, k))])
         return [("start_idx", c.start_idx.t == l_len(S0.t)), ("remaining_points_not_earlier", ub)] + repr_all(c.self, l_len(S0.t) + t, lambda j: l_at(V.t, j))
 
@@ -316,7 +316,7 @@ class _build(Contract):
             ("valid", f["_valid"].t),
             ("time_lists_empty", z3.And(l_len(f["_timestamps"].t) == 0, l_len(f["_storage_pos_sorted_by_ts"].t) == 0)),
             ("buffer_len", l_len(buf) == t),
-            ("buffer_items", z3.ForAll([j], z3.Implies(z3.And(0 <= j, j < t), z3.And(t_get(l_at(buf, j), 0) == ts(l_at(pts, j)), t_get(l_at(buf, j), 1) == j)),
+            ("buffer_items", forall([j], z3.Implies(z3.And(0 <= j, j < t), z3.And(t_get(l_at(buf, j), 0) == ts(l_at(pts, j)), t_get(l_at(buf, j), 1) == j)),
                                        patterns=[l_at(buf, j)])),
         ] + repr_all(c.self, t, lambda i: l_at(pts, i), parts=("num", "meas", "tags", "fields"))
 
@@ -334,7 +334,7 @@ def _keep(c):
 def _r_in_range(c):
     n, _ = view_of(c.self)
     x = z3.Int(fresh_name("x"))
-    return ("r_items_in_range", z3.ForAll([x], z3.Implies(z3.Select(c.r_items.t, x), z3.And(0 <= x, x < n)), patterns=[z3.Select(c.r_items.t, x)]))
+    return ("r_items_in_range", forall([x], z3.Implies(z3.Select(c.r_items.t, x), z3.And(0 <= x, x < n)), patterns=[z3.Select(c.r_items.t, x)]))
 
 
 @contract("tinyflux.index.Index._remove_measurements")
@@ -472,14 +472,14 @@ class _remove_timestamps(Contract):
         a, b, j = z3.Int(fresh_name("a")), z3.Int(fresh_name("b")), z3.Int(fresh_name("j"))
         return out + [
             ("lengths", z3.And(l_len(nt) == m, m <= t)),
-            ("origin", z3.ForAll([a], z3.Implies(z3.And(0 <= a, a < m),
+            ("origin", forall([a], z3.Implies(z3.And(0 <= a, a < m),
                                                  z3.And(keep(l_at(npos, a)),
                                                         z3.Exists([j], z3.And(0 <= j, j < t, l_at(POS0, j) == l_at(npos, a), l_at(TS0, j) == l_at(nt, a))))),
                                  patterns=[l_at(npos, a), l_at(nt, a)])),
-            ("order_preserved", z3.ForAll([a, b], z3.Implies(z3.And(0 <= a, a < b, b < m),
+            ("order_preserved", forall([a, b], z3.Implies(z3.And(0 <= a, a < b, b < m),
                                                              z3.And(l_at(nt, a) <= l_at(nt, b), l_at(npos, a) != l_at(npos, b))),
                                           patterns=[z3.MultiPattern(l_at(npos, a), l_at(npos, b)), z3.MultiPattern(l_at(nt, a), l_at(nt, b))])),
-            ("complete", z3.ForAll([j], z3.Implies(z3.And(0 <= j, j < t, keep(l_at(POS0, j))),
+            ("complete", forall([j], z3.Implies(z3.And(0 <= j, j < t, keep(l_at(POS0, j))),
                                                    z3.Exists([a], z3.And(0 <= a, a < m, l_at(npos, a) == l_at(POS0, j)))),
                                    patterns=[l_at(POS0, j)])),
         ]
@@ -546,10 +546,10 @@ def update_pre(c, parts):
     i, i2, p = z3.Int(fresh_name("i")), z3.Int(fresh_name("i2")), z3.Int(fresh_name("p"))
     kept = lambda x: z3.And(0 <= x, x < n, keep(x))
     return [("view_len", n >= 0), ("new_len", n2 >= 0)] + sparse_all(ix, n, P, keep, parts) + [
-        ("renumber_in_range", z3.ForAll([i], z3.Implies(kept(i), z3.And(0 <= npf(i), npf(i) < n2)), patterns=[z3.Select(d_dom(U.t), i)])),
-        ("renumber_monotone", z3.ForAll([i, i2], z3.Implies(z3.And(kept(i), kept(i2), i < i2), npf(i) < npf(i2)),
+        ("renumber_in_range", forall([i], z3.Implies(kept(i), z3.And(0 <= npf(i), npf(i) < n2)), patterns=[z3.Select(d_dom(U.t), i)])),
+        ("renumber_monotone", forall([i, i2], z3.Implies(z3.And(kept(i), kept(i2), i < i2), npf(i) < npf(i2)),
                                         patterns=[z3.MultiPattern(z3.Select(d_dom(U.t), i), z3.Select(d_dom(U.t), i2))])),
-        ("renumber_onto", z3.ForAll([p], z3.Implies(z3.And(0 <= p, p < n2, S.Tr(p)), z3.Exists([i], z3.And(kept(i), npf(i) == p))), patterns=[S.Tr(p)])),
+        ("renumber_onto", forall([p], z3.Implies(z3.And(0 <= p, p < n2, S.Tr(p)), z3.Exists([i], z3.And(kept(i), npf(i) == p))), patterns=[S.Tr(p)])),
     ]
 
 
@@ -563,7 +563,7 @@ def new_view(c_old):
     n2 = ix.t["_num_items"].t
     i = z3.Int(fresh_name("i"))
     facts = [l_len(V) == n2,
-             z3.ForAll([i], z3.Implies(z3.And(0 <= i, i < n, z3.Not(z3.Select(R, i))), l_at(V, npf(i)) == P(i)),
+             forall([i], z3.Implies(z3.And(0 <= i, i < n, z3.Not(z3.Select(R, i))), l_at(V, npf(i)) == P(i)),
                        patterns=[z3.Select(d_dom(U.t), i)])]
     return V, facts
 
@@ -575,9 +575,9 @@ def _mapped_lists_inv(new, old, npf, done, elem=lambda x: x, setelem=None):
     nl, ol = z3.Select(d_val(new.t), k), z3.Select(d_val(old.t), k)
     return [
         ("domain_unchanged", d_dom(new.t) == d_dom(old.t)),
-        ("pending_unchanged", z3.ForAll([k], z3.Implies(z3.Not(done(k)), nl == ol), patterns=[nl])),
-        ("processed_len", z3.ForAll([k], z3.Implies(done(k), l_len(nl) == l_len(ol)), patterns=[nl])),
-        ("processed_mapped", z3.ForAll([k, j], z3.Implies(z3.And(done(k), 0 <= j, j < l_len(ol)), setelem(l_at(nl, j), l_at(ol, j))),
+        ("pending_unchanged", forall([k], z3.Implies(z3.Not(done(k)), nl == ol), patterns=[nl])),
+        ("processed_len", forall([k], z3.Implies(done(k), l_len(nl) == l_len(ol)), patterns=[nl])),
+        ("processed_mapped", forall([k, j], z3.Implies(z3.And(done(k), 0 <= j, j < l_len(ol)), setelem(l_at(nl, j), l_at(ol, j))),
                                        patterns=[l_at(nl, j), l_at(ol, j)])),
     ]
 
@@ -652,10 +652,10 @@ def _mapped_tags_inv(new, old, npf, done):
     nl, ol = z3.Select(d_val(ni), v), z3.Select(d_val(oi), v)
     return [
         ("domain_unchanged", d_dom(new.t) == d_dom(old.t)),
-        ("inner_domain_unchanged", z3.ForAll([k], d_dom(ni) == d_dom(oi), patterns=[ni])),
-        ("pending_unchanged", z3.ForAll([k, v], z3.Implies(z3.Not(done(k, v)), nl == ol), patterns=[nl])),
-        ("processed_len", z3.ForAll([k, v], z3.Implies(done(k, v), l_len(nl) == l_len(ol)), patterns=[nl])),
-        ("processed_mapped", z3.ForAll([k, v, j], z3.Implies(z3.And(done(k, v), 0 <= j, j < l_len(ol)), l_at(nl, j) == npf(l_at(ol, j))),
+        ("inner_domain_unchanged", forall([k], d_dom(ni) == d_dom(oi), patterns=[ni])),
+        ("pending_unchanged", forall([k, v], z3.Implies(z3.Not(done(k, v)), nl == ol), patterns=[nl])),
+        ("processed_len", forall([k, v], z3.Implies(done(k, v), l_len(nl) == l_len(ol)), patterns=[nl])),
+        ("processed_mapped", forall([k, v, j], z3.Implies(z3.And(done(k, v), 0 <= j, j < l_len(ol)), l_at(nl, j) == npf(l_at(ol, j))),
                                        patterns=[l_at(nl, j), l_at(ol, j)])),
     ]
 
